@@ -22,7 +22,7 @@ ALPHABET = ["OK_KA", "OK_CLOSE", "REFUSE", "CLOSE0", "RESET", "E4XX_LEN", "E5XX_
 BIG_PAD = (b"0123456789abcdef" * 200)
 # further behaviours (used in shorter sequences): non-200 replies whose body is binary / carries the JSON-RPC content type / is
 # truncated, and a bodiless status announcing a length
-EXTENDED = ["E4XX_BIN", "E500_JSONCT", "E5XX_TRUNC", "E204_LEN", "E4XX_BIGUTF8", "E599_NOREASON", "E520_BLANKREASON", "E404_NOREASON", "E299_OK"]
+EXTENDED = ["E4XX_BIN", "E500_JSONCT", "E5XX_TRUNC", "E204_LEN", "E4XX_BIGUTF8", "E599_NOREASON", "E520_BLANKREASON", "E404_NOREASON", "E299_OK", "E302_LEN"]
 EOF_SPIN_LIMIT = 300
 
 
@@ -282,6 +282,8 @@ class PeerSocket(object):
             self._emit(b"HTTP/1.1 520 \r\nContent-Length: 0\r\n\r\n")
         elif b == "E404_NOREASON":
             self._emit(b"HTTP/1.1 404\r\nContent-Length: 0\r\n\r\n")
+        elif b == "E302_LEN":
+            self._emit(http_resp(302, "Found", b"<html>moved</html>", extra=("Location: http://elsewhere.test/",)))
         elif b == "E299_OK":
             self._emit(http_resp(299, "Strange", good))
         elif b == "EMPTY200":
